@@ -2,6 +2,7 @@ package props
 
 import (
 	"fmt"
+	"go/token"
 	"strings"
 
 	"golang.org/x/tools/go/ssa"
@@ -63,6 +64,22 @@ func sliceRoots(v ssa.Value) []ssa.Value {
 		case *ssa.Slice:
 			rec(x.X)
 			return
+		case *ssa.UnOp:
+			// load of an address-taken local: follow every store into it
+			if a, ok := x.X.(*ssa.Alloc); ok && x.Op == token.MUL {
+				n := 0
+				if refs := a.Referrers(); refs != nil {
+					for _, rf := range *refs {
+						if st, ok := rf.(*ssa.Store); ok && st.Addr == a {
+							n++
+							rec(st.Val)
+						}
+					}
+				}
+				if n > 0 {
+					return
+				}
+			}
 		case *ssa.ChangeType:
 			rec(x.X)
 			return
